@@ -47,7 +47,7 @@ Proof. exact (@sorted_spans_count). Qed.
 Print Assumptions span_lengths_are_group_sizes.
 
 (* full: counts sum to the number of rows *)
-Theorem counts_sum_to_rows : forall (V:Type) (dv:V) kr (vals:list V), length kr = length vals ->
+Theorem counts_sum_to_rows : forall (V:Type) kr (vals:list V), length kr = length vals ->
   sumZ (agg_ref (@len V) kr vals) = len kr.
 Proof. exact (@group_counts_sum). Qed.
 Print Assumptions counts_sum_to_rows.
